@@ -17,6 +17,7 @@ import (
 	"github.com/gcash/bchutil"
 
 	al "verif/harness/cmd/c01/addrlib"
+	"verif/harness/cmd/c01/addrlib/envrun"
 	"verif/harness/internal/vh"
 )
 
@@ -672,6 +673,8 @@ func main() {
 	rep.Rule = "every execution is a DecodeAddress call on a constructed string; non-trivial when the string carries a valid checksum / is well-formed up to the rule under test; distinct by (string, network)"
 	ctx = &al.Ctx{Cfg: cfg, Rep: rep, Cases: vh.NewCases(cfg, "Run.Run_C02", 150)}
 	root := vh.NewRNG(cfg.Seed)
+	// environment monitors (round 3): tables, registered networks, white space around valid strings; plain children
+	env := envrun.Start(cfg, rep)
 
 	if !cfg.Search {
 		ctx.ShaCase(root.Fork("sha").Bytes(25))
@@ -685,6 +688,7 @@ func main() {
 	crossNet(root.Fork("crossnet"))
 	legacyConstructed(root.Fork("legacy-constructed"))
 	histories(root.Fork("histories"))
+	env.Finish()
 
 	if !cfg.Search {
 		_, err := ctx.Cases.Flush()
